@@ -134,8 +134,8 @@ Proof. intros H. unfold bodyst, on_u, lg. simpl. now rewrite H. Qed.
 
 (* ---------- the bytes-in-order clause, one call ---------- *)
 
-Definition rf_bytes_ok (RF : policy -> ucfg -> state -> source -> state * nat * err) (P : policy) (cfg : ucfg) : Prop :=
-  forall st src st' n e, Inv st -> RF P cfg st src = (st', n, e) ->
+Definition rf_bytes_ok (G : state -> Prop) (RF : policy -> ucfg -> state -> source -> state * nat * err) (P : policy) (cfg : ucfg) : Prop :=
+  forall st src st' n e, G st -> RF P cfg st src = (st', n, e) ->
     exists k, bodyst st' = bodyst st ++ firstn k (s_data src) /\
               (k <= length (s_data src))%nat /\ n = k /\ (e = ENil -> k = length (s_data src)).
 
@@ -143,7 +143,11 @@ Section StepBytes.
   Variable RF : policy -> ucfg -> state -> source -> state * nat * err.
   Variable P : policy.
   Variable cfg : ucfg.
-  Hypothesis RF_bytes : rf_bytes_ok RF P cfg.
+  (* G: what is known about the state when ReadFrom is reached (the accounting invariant for the
+     patched recorder, nothing for the pinned one) *)
+  Variable G : state -> Prop.
+  Hypothesis G_hdr : forall st v c, G st -> G (rec_write_header (on_u (fun u => set_ct u v) st) c).
+  Hypothesis RF_bytes : rf_bytes_ok G RF P cfg.
   Hypothesis contract : io_writer_contract P.
 
   Ltac unchanged :=
@@ -156,7 +160,7 @@ Section StepBytes.
   Qed.
 
   Lemma step_bytes st c st' r :
-    Inv st -> step_with RF P cfg st c = (st', r) ->
+    G st -> step_with RF P cfg st c = (st', r) ->
     bytes_in_order c r (lg (snd st)) (lg (snd st')).
   Proof.
     intros I H. unfold bytes_in_order. fold (bodyst st) (bodyst st'). destruct c; simpl in H.
@@ -208,8 +212,7 @@ Section StepBytes.
       rewrite rec_write_header_body in A. change (bodyst (on_u (fun u => set_ct u ct) st)) with (bodyst st) in A.
       exists n. simpl. split; auto. split; auto. split; [discriminate|auto].
     - unfold ctx_stream in H.
-      assert (I1 : Inv (rec_write_header (on_u (fun u => set_ct u ct) st) code))
-        by (apply inv_rec_write_header; apply inv_on_u; auto).
+      assert (I1 : G (rec_write_header (on_u (fun u => set_ct u ct) st) code)) by auto.
       assert (E : bodyst (rec_write_header (on_u (fun u => set_ct u ct) st) code) = bodyst st)
         by (rewrite rec_write_header_body; reflexivity).
       destruct (s_wt s).
@@ -308,8 +311,8 @@ Proof.
   destruct (uw_write P (mku [EvHeader code] v l) p) as [[u2 n2] e2] eqn:HW.
   intros H. apply pair_equal_spec in H as [H <-]. apply pair_equal_spec in H as [<- <-].
   destruct (uw_write_log _ _ _ _ _ _ HW) as (Hl & Hn & Hc & Hloc). simpl in *.
-  unfold sent_exactly, lg. simpl. rewrite Hl. simpl. repeat split; auto.
-  exists n2. split; auto. intros E. eapply uw_write_contract; eauto.
+  unfold sent_exactly, lg. simpl. rewrite Hl. simpl. rewrite ?app_nil_r. repeat split; auto.
+  exists n2. split; [reflexivity|]. intros E. eapply uw_write_contract; eauto.
 Qed.
 
 Lemma copy_after_header P code v l cs fail st' n e :
@@ -331,7 +334,7 @@ Proof.
     destruct (uw_write_log _ _ _ _ _ _ HU) as (B1 & B2 & B3 & B4). simpl.
     repeat split; auto; try congruence. lia.
   - simpl. repeat split; auto. lia.
-  - unfold sent_exactly. rewrite Hl. simpl. rewrite headers_app, headers_map_body, body_app, body_map_body. simpl.
+  - unfold sent_exactly. rewrite Hl. rewrite headers_app, headers_map_body, body_app, body_map_body. simpl.
     repeat split; auto. exists k. split; auto. intros E. apply He; auto.
 Qed.
 
@@ -372,17 +375,17 @@ Section Helpers.
     helper_exact c r (lg (snd st')) (u_ct (snd st')) (u_loc (snd st')) (rec_answers (fst st')).
   Proof.
     intros Hh Hf. destruct c; try discriminate; cbn [step_with helper_code] in *.
-    - unfold ctx_string, st_init, u_init. cbn [ct_empty snd u_ct on_u fst set_ct u_tr u_loc].
+    - unfold ctx_string, st_init, u_init, on_u, set_ct, ct_empty; cbn [fst snd u_ct u_tr u_loc].
       rewrite (fresh_header _ _ _ Hf).
       destruct (rec_write P _ payload) as [[s n] e] eqn:HW.
       destruct (write_after_header _ _ _ _ _ _ _ _ contract HW) as (A & B & C & D & k & E & F).
       simpl. repeat split; auto. exists k; auto. intros X. rewrite E, (F X). apply firstn_all.
-    - unfold ctx_blob, st_init, u_init. cbn [snd u_ct on_u fst set_ct u_tr u_loc].
+    - unfold ctx_blob, st_init, u_init, on_u, set_ct, ct_empty; cbn [fst snd u_ct u_tr u_loc].
       rewrite (fresh_header _ _ _ Hf).
       destruct (rec_write P _ payload) as [[s n] e] eqn:HW.
       destruct (write_after_header _ _ _ _ _ _ _ _ contract HW) as (A & B & C & D & k & E & F).
       simpl. repeat split; auto. exists k; auto. intros X. rewrite E, (F X). apply firstn_all.
-    - unfold ctx_stream, st_init, u_init. cbn [snd u_ct on_u fst set_ct u_tr u_loc].
+    - unfold ctx_stream, st_init, u_init, on_u, set_ct, ct_empty; cbn [fst snd u_ct u_tr u_loc].
       rewrite (fresh_header _ _ _ Hf).
       destruct (s_wt s).
       + destruct (copy_chunks (rec_write P) _ (whole (s_data s)) 0%nat false) as [[s1 n] e] eqn:HW.
@@ -392,12 +395,14 @@ Section Helpers.
       + destruct (RF P cfg _ s) as [[s1 n] e] eqn:HW.
         destruct (RF_after_header _ _ _ _ _ _ HW) as (A & B & C & D & k & E & F).
         simpl. repeat split; auto. exists k; auto. intros X. rewrite E, (F X). apply firstn_all.
-    - unfold ctx_redirect. rewrite redirect_code_ok_spec.
+    - destruct (ctx_redirect P st_init code url body) as [st' e] eqn:HR.
+      cbn [helper_exact]. rewrite redirect_code_ok_spec. unfold ctx_redirect in HR.
       destruct ((code <? 300) || (308 <? code)); cbn [negb].
-      + simpl. auto.
-      + unfold st_init, u_init. cbn [snd u_ct on_u fst set_ct set_loc u_tr u_loc].
-        rewrite (fresh_header _ _ _ Hf).
-        destruct (rec_write P _ body) as [[s n] e] eqn:HW.
+      + apply pair_equal_spec in HR as [<- <-]. simpl. auto.
+      + unfold st_init, u_init, on_u, set_ct, set_loc in HR; cbn [fst snd u_ct u_tr u_loc] in HR.
+        rewrite (fresh_header _ _ _ Hf) in HR.
+        destruct (rec_write P _ body) as [[s n] e0] eqn:HW.
+        apply pair_equal_spec in HR as [<- <-].
         destruct (write_after_header _ _ _ _ _ _ _ _ contract HW) as (A & B & C & D & k & E & F).
         simpl. repeat split; auto. exists k; auto.
   Qed.
